@@ -471,7 +471,7 @@ def run(ctx):
                 pre = [list(a)] + ([list(b)] if b else [])
                 cs.append({"part": "hist", "init": init, "prefix": pre, "depth": depth})
     # two large files (the hashing pool): histories that start with a staging / hashing call
-    for a in (("build-midwrite", "f1"), ("build",), ("imd5-midwrite", "f1"), ("hash-midwrite", "f1"), ("many",)):
+    for a in (("build-midwrite", "f1"), ("build",), ("imd5-midwrite", "f1")):
         cs.append({"part": "hist", "init": "big", "prefix": [list(a)], "depth": depth})
     for n in (1, 2, 998, 999, 1000, 1001, 1999):
         cs.append({"part": "batch", "n": n})
